@@ -289,16 +289,38 @@ def wrun (rt : Nat) (s : WS) : List WEv → WS
 /-- dense checking (threaded reader): consecutive checks at most `G` apart; the refresh of
     `tcp_disconnect_timer` caused by a probe happens at most `d` after the probing check, and
     before any later event -/
+def pendOk (d : Nat) (p : Option Nat) (t : Nat) : Prop :=
+  match p with
+  | none => True
+  | some c => t ≤ c + d
+
 def admDense (G d : Nat) (s : WS) (e : WEv) : Prop :=
   s.last ≤ e.time ∧
-  (∀ c, s.pend = some c → e.time ≤ c + d) ∧
+  pendOk d s.pend e.time ∧
   match e with
   | .check now => now ≤ s.lastCheck + G
   | .answer _ => True
 
+instance (d : Nat) (p : Option Nat) (t : Nat) : Decidable (pendOk d p t) := by
+  unfold pendOk; cases p <;> exact inferInstance
+
+instance (G d : Nat) (s : WS) (e : WEv) : Decidable (admDense G d s e) := by
+  unfold admDense; cases e <;> exact inferInstance
+
 def AdmDense (rt G d : Nat) : WS → List WEv → Prop
   | _, [] => True
   | s, e :: es => admDense G d s e ∧ AdmDense rt G d (wstep rt s e) es
+
+def AdmDense.dec (rt G d : Nat) : (s : WS) → (evs : List WEv) → Decidable (AdmDense rt G d s evs)
+  | _, [] => isTrue trivial
+  | s, e :: es =>
+    match (inferInstance : Decidable (admDense G d s e)), AdmDense.dec rt G d (wstep rt s e) es with
+    | isTrue a, isTrue b => isTrue ⟨a, b⟩
+    | isFalse a, _ => isFalse fun h => a h.1
+    | _, isFalse b => isFalse fun h => b h.2
+
+instance (rt G d : Nat) (s : WS) (evs : List WEv) : Decidable (AdmDense rt G d s evs) :=
+  AdmDense.dec rt G d s evs
 
 /-- sparse checking (asyncio timer): every check comes more than `rt` and at most `2·rt` after
     the previous one, and the probe of the previous check has been answered by then -/
@@ -308,9 +330,23 @@ def admSparse (rt : Nat) (s : WS) (e : WEv) : Prop :=
   | .check now => s.lastCheck + rt < now ∧ now ≤ s.lastCheck + 2 * rt ∧ s.pend = none
   | .answer _ => s.pend.isSome = true
 
+instance (rt : Nat) (s : WS) (e : WEv) : Decidable (admSparse rt s e) := by
+  unfold admSparse; cases e <;> exact inferInstance
+
 def AdmSparse (rt : Nat) : WS → List WEv → Prop
   | _, [] => True
   | s, e :: es => admSparse rt s e ∧ AdmSparse rt (wstep rt s e) es
+
+def AdmSparse.dec (rt : Nat) : (s : WS) → (evs : List WEv) → Decidable (AdmSparse rt s evs)
+  | _, [] => isTrue trivial
+  | s, e :: es =>
+    match (inferInstance : Decidable (admSparse rt s e)), AdmSparse.dec rt (wstep rt s e) es with
+    | isTrue a, isTrue b => isTrue ⟨a, b⟩
+    | isFalse a, _ => isFalse fun h => a h.1
+    | _, isFalse b => isFalse fun h => b h.2
+
+instance (rt : Nat) (s : WS) (evs : List WEv) : Decidable (AdmSparse rt s evs) :=
+  AdmSparse.dec rt s evs
 
 /-- a silent link: only checks; the time of the first one that drops -/
 def firstDrop (rt : Nat) (w : W) : List Nat → Option Nat
